@@ -1,9 +1,135 @@
 import AioModel.Wire
-/-! Driver commands of property C15 (stub until the model exists). -/
+import AioModel.C15
+import AioModel.C15Static
+/-! Driver commands of property C15 (see harness/c15.py for the line formats). -/
 namespace Aio.Driver.C15
-open Aio Aio.Wire
+open Aio Aio.Wire Aio.C15
+
+def parseOptStr (s : String) : Option (Option Str) :=
+  if s == "none" then some none else (parseStr s).map some
+
+def parseInt? (s : String) : Option Int := s.toInt?
+
+def parseOptInt (s : String) : Option (Option Int) :=
+  if s == "none" then some none else (parseInt? s).map some
+
+def showOptInt : Option Int → String
+  | none => "none"
+  | some i => toString i
+
+/-- `none` | `[]` | `w~<str>|s~<str>|…` -/
+def parseTags (s : String) : Option (Option (List ETag)) :=
+  if s == "none" then some none
+  else if s == "[]" then some (some [])
+  else
+    ((s.splitOn "|").mapM (fun (e : String) =>
+      match e.splitOn "~" with
+      | ["w", v] => (parseStr v).map (fun v => ({ weak := true, value := v } : ETag))
+      | ["s", v] => (parseStr v).map (fun v => ({ weak := false, value := v } : ETag))
+      | _ => none)).map some
+
+def showCond : Cond → String
+  | .precondFailed => "412"
+  | .notModified => "304"
+  | .send => "send"
+
+def showCR : CRange → String
+  | .absent => "-"
+  | .unsat n => s!"*/{n}"
+  | .range f l n => s!"{f}-{l}/{n}"
+
+def parseCondHdrs (im inm um ms ir : String) : Option CondHdrs := do
+  let im ← parseTags im; let inm ← parseTags inm
+  let um ← parseOptInt um; let ms ← parseOptInt ms; let ir ← parseOptInt ir
+  pure { ifMatch := im, ifNoneMatch := inm, unmodSince := um, modSince := ms, ifRange := ir }
+
+def parsePath (s : String) : Option Path :=
+  if s == "/" then some [] else (s.splitOn "/").mapM parseStr
+
+def showPath (p : Path) : String :=
+  if p.isEmpty then "/" else "/".intercalate (p.map showStr)
+
+def parseNode (s : String) : Option Node :=
+  match s.toList with
+  | ['d'] => some .dir
+  | ['o'] => some .other
+  | 'f' :: r => (String.ofList r).toNat?.map .file
+  | 'l' :: r => (parseStr (String.ofList r)).map .link
+  | _ => none
+
+def parseFs (s : String) : Option (List (Path × Node)) :=
+  if s == "-" then some [] else
+  (s.splitOn ";").mapM (fun (e : String) =>
+    match e.splitOn "=" with
+    | [p, n] => do pure ((← parsePath p), (← parseNode n))
+    | _ => none)
+
+def showOut : Out → String
+  | .notFound => "404"
+  | .forbidden => "403"
+  | .serverError => "500"
+  | .listing p => "listing " ++ showPath p
+  | .file p id enc => s!"file {showPath p} {id} " ++ (match enc with | some e => showStr e | none => "-")
+
+def FUEL : Nat := 200
 
 def handle : List String → String
+  | ["range", h] =>
+    match parseOptStr h with
+    | some h =>
+      (match httpRange h with
+       | .ok (a, b) => s!"slice {showOptInt a} {showOptInt b}"
+       | .error _ => "err")
+    | none => "bad-op"
+  | ["spec", h, size] =>
+    match parseStr h, size.toNat? with
+    | some h, some size =>
+      (match parseSpec h with
+       | none => "invalid"
+       | some sp => match rfcSlice sp size with
+         | none => "unsat"
+         | some (f, l) => s!"slice {f} {l}")
+    | _, _ => "bad-op"
+  | ["cond", cur, mt, im, inm, um, ms] =>
+    match parseStr cur, mt.toNat?, parseCondHdrs im inm um ms "none" with
+    | some cur, some mt, some h => showCond (makeResponse cur mt h)
+    | _, _, _ => "bad-op"
+  | ["file", cs, head, cur, mt, im, inm, um, ms, ir, rng, content] =>
+    match cs.toNat?, parseStr cur, mt.toNat?, parseCondHdrs im inm um ms ir, parseOptStr rng, parseHex content with
+    | some cs, some cur, some mt, some h, some rng, some content =>
+      let r := fileResponse cs (parseBool head) cur mt h rng content
+      s!"{r.status} {showCR r.contentRange} {showOptInt r.contentLength} {showHex r.body}"
+    | _, _, _, _, _, _ => "bad-op"
+  | ["norm", s] =>
+    match parseStr s with
+    | some s => showStr (normpath s)
+    | none => "bad-op"
+  | ["unq", s] =>
+    match parseStr s with
+    | some s => showStr (unquotePathSafe s)
+    | none => "bad-op"
+  | ["route", pfx, path] =>
+    match parseStr pfx, parseStr path with
+    | some pfx, some path =>
+      let idx := indexed (if pfx.isEmpty then [SLASH] else pfx) (path.length + 2) path
+      (match route pfx path with
+       | none => s!"none idx={showBool idx}"
+       | some f => s!"some {showStr f} idx={showBool idx}")
+    | _, _ => "bad-op"
+  | ["serve", follow, showIdx, root, filename, ae, fs] =>
+    match parsePath root, parseStr filename, parseStr ae, parseFs fs with
+    | some root, some filename, some ae, some t =>
+      showOut (serve (tableFs t) FUEL { root := root, follow := parseBool follow, showIndex := parseBool showIdx } filename ae)
+    | _, _, _, _ => "bad-op"
+  | ["get", follow, showIdx, pfx, root, path, ae, fs] =>
+    match parseStr pfx, parsePath root, parseStr path, parseStr ae, parseFs fs with
+    | some pfx, some root, some path, some ae, some t =>
+      if !indexed (if pfx.isEmpty then [SLASH] else pfx) (path.length + 2) path then "nomatch"
+      else match route pfx path with
+        | none => "nomatch"
+        | some filename =>
+          showOut (serve (tableFs t) FUEL { root := root, follow := parseBool follow, showIndex := parseBool showIdx } filename ae)
+    | _, _, _, _, _ => "bad-op"
   | _ => "bad-op"
 
 end Aio.Driver.C15
